@@ -260,6 +260,12 @@ class C19(Prop):
             if back != dt or dump(back) != dump(dt):
                 return Mismatch('a data type is not reproduced by parsing its JSON description', dump(back), dump(dt), 'C19:json:roundtrip',
                                 relation='spec')
+            # the same for a tree that has been used before (hashed: a dict key, a set member), in both directions
+            h = hash(dt)
+            again = t._parse_datatype_json_string(dt.json())
+            if again != dt or dt != again or hash(again) != h or len({dt, again}) != 1:
+                return Mismatch('a data type that has been hashed is not equal to the tree parsed from its JSON description',
+                                dump(again), dump(dt), 'C19:json:roundtrip-hashed', relation='spec')
             r = ask({'p': 'C19', 'op': 'parse', 'json': jv})
             if r['dump'] is None or canon(r['dump']) != canon(dump(dt)):
                 return Mismatch('Lean JSON parser differs from the real type tree', dump(dt), r['dump'], 'json-model:parse')
